@@ -163,6 +163,8 @@ def rand_battery(rng, request, kinds=("ideal", "l2c", "l2s"), noise_p=0.0, big=F
     free = request * rng.choice([1.0, 1.0, 1.2, 3.0]) + rng.choice([0, 0, 0.5])
     init = rng.choice([0, 0, 5, 20, 60])
     cap = init + free
+    if cap <= 0:
+        cap = 0.5  # (a zero request must not produce a zero-capacity battery)
     if k != "ideal" and rng.random() < 0.5:
         # start inside / near the rampdown region
         cap = max(cap, 10)
@@ -199,6 +201,8 @@ def rand_sessions(rng, net, nmax=7, horizon=30, bkinds=("ideal", "l2c", "l2s"), 
             continue
         busy[st] = d
         req = rng.choice([0.0005, 0.02, 0.3, 1, 3, 8, 25, 60])
+        if rng.random() < 0.04:
+            req = 0.0  # a car that plugged in without needing charge (kWhDelivered == 0 in the data)
         if sid_style == "x":
             sid = f"x{k}"
         elif sid_style == "other_station":
@@ -210,6 +214,9 @@ def rand_sessions(rng, net, nmax=7, horizon=30, bkinds=("ideal", "l2c", "l2s"), 
         est = d if rng.random() < 0.6 else max(a + 1, d + rng.choice([-2, -1, 1, 3, 10]))
         out.append({"id": sid, "station": st, "arrival": a, "departure": d, "requested": req,
                     "est_dep": est, "battery": rand_battery(rng, req, bkinds, noise_p, big)})
+    if out and all(o["requested"] == 0 for o in out):
+        out[0]["requested"] = 1.0
+        out[0]["battery"] = rand_battery(rng, 1.0, bkinds, noise_p, big)
     rng.shuffle(out)
     return out
 
